@@ -3,7 +3,7 @@ use crate::property::PropertyValue;
 use crate::snapshot::{EdgeKey, L0Run, RelTypeId};
 use std::collections::{BTreeMap, BTreeSet, HashMap};
 
-#[derive(Debug, Default)]
+#[derive(Debug, Default, Clone)]
 pub struct MemTable {
     out: HashMap<InternalNodeId, Vec<EdgeKey>>,
     in_: HashMap<InternalNodeId, Vec<EdgeKey>>,
